@@ -361,7 +361,6 @@ func purContract(c *PCase) (string, string, string) {
 	return sb.String(), shown, ""
 }
 
-
 // ---- resource transfers: second value transfer and swap on resource-typed targets (tt = RX)
 
 func purResContract(c *PCase) (string, string, string) {
